@@ -1321,6 +1321,9 @@ class SpaceManager(SharedSpaceOperations):
 
     def rename_space(self, space, name):
 
+        if not is_valid_name(name):
+            raise ValueError("name '%s' is invalid" % name)
+
         # Check name does not exit already
         parent = space.parent
         if not self._can_add(
